@@ -379,3 +379,110 @@ def phh_pair(tid, spec, rng, pol, cut_p=0.3, user_fields=True):
         return {'tid': tid, 'kind': 'phh', 'A': recA, 'B': recA, 'sync': [], 'flags': flags}
     recB = raw_record(tid, stB, dict(spec, autos=[a.value for a in stB.automations]))
     return {'tid': tid, 'kind': 'phh', 'A': recA, 'B': recB, 'sync': [], 'flags': flags, 'text': text}
+
+
+# ---------------------------------------------------------------------------------------------------------------------
+# ACPC / Pluribus protocol (C17): purely syntactic tokenising of the produced lines; TLC compares with Notation.tla
+# ---------------------------------------------------------------------------------------------------------------------
+import re as _re
+
+_TOK = _re.compile(r'f|c|r\d*|/')
+
+
+def _cards(s):
+    return [pk.RANKS.index(s[i]) * 4 + pk.SUITS.index(s[i + 1]) for i in range(0, len(s), 2)]
+
+
+def _acts(s):
+    out = []
+    pos = 0
+    for m in _TOK.finditer(s):
+        if m.start() != pos:
+            raise ValueError(f'untokenisable action string {s!r}')
+        pos = m.end()
+        t = m.group()
+        if t[0] == 'r':
+            out.append({'k': 'r', 'a': int(t[1:]) if len(t) > 1 else -1})
+        else:
+            out.append({'k': t, 'a': -1})
+    if pos != len(s):
+        raise ValueError(f'untokenisable action string {s!r}')
+    return out
+
+
+def _cardfield(s):
+    holes, *boards = s.split('/')
+    return [_cards(h) for h in holes.split('|')], [_cards(b) for b in boards]
+
+
+def tokenise_acpc(direction, text):
+    parts = text.strip().split(':')
+    assert parts[0] == 'MATCHSTATE', text
+    holes, boards = _cardfield(parts[4])
+    act = _acts(parts[5])[0] if len(parts) > 5 else {'k': '', 'a': -1}
+    return {'dir': 'S' if direction == 'S->' else 'C', 'acts': _acts(parts[3]), 'holes': holes, 'boards': boards, 'act': act,
+            'pos': int(parts[1]), 'hand': int(parts[2])}
+
+
+def acpc_pair(tid, spec, rng, pol):
+    from pokerkit import HandHistory
+    import dataclasses
+    import warnings
+    holder = {}
+    recA = walk.play_hand(tid, spec, rng, pol, keep_state=holder)
+    if recA['create']['out'] != 'ok' or 'state' not in holder:
+        return None
+    stA = holder['state']
+    game = games.Last.game
+    n = spec['n']
+    nolimit = spec['variant'] == 'NT'
+    flags = []
+    ops = [pk.op_rec(o) for o in stA.operations]
+    bet_idx = [j for j, r in enumerate(ops) if r['k'] in ('F', 'CC', 'CBR')]
+    views = []
+    plur = {'present': False, 'acts': [], 'holes': [], 'boards': [], 'payoffs': []}
+    parsed = False
+    recB = recA
+    cut = 0
+    try:
+        with warnings.catch_warnings():
+            warnings.simplefilter('ignore')
+            hh = HandHistory.from_game_state(game, stA, hand=tid)
+            hh_view = hh
+            terminal = not stA.status
+            if bet_idx and (not terminal or rng.random() < 0.4):
+                m = rng.randrange(len(bet_idx))
+                cut = bet_idx[m]                 # keep the log records before the m-th betting action
+                lines = [j for j, a in enumerate(hh.actions) if _re.match(r'^p\d+ (f|cc|cbr)', a)]
+                hh_view = dataclasses.replace(hh, actions=list(hh.actions[:lines[m]]))
+            elif not terminal:
+                return None
+            for seat in range(n):
+                msgs = [tokenise_acpc(d, t) for d, t in hh_view.to_acpc_protocol(seat, tid)]
+                for mm in msgs:
+                    if mm['pos'] != seat or mm['hand'] != tid:
+                        flags.append(['position and hand number are echoed in every message', False])
+                    del mm['pos'], mm['hand']
+                views.append({'seat': seat + 1, 'msgs': msgs})
+            if nolimit and terminal:
+                line = hh.to_pluribus_protocol(tid)
+                p = line.split(':')
+                holes, boards = _cardfield(p[3])
+                plur = {'present': True, 'acts': _acts(p[2]), 'holes': holes, 'boards': boards,
+                        'payoffs': [int(x) for x in p[4].split('|')]}
+                flags.append(['the Pluribus line names the hand and the players', p[0] == 'STATE' and int(p[1]) == tid and
+                              p[5].split('|') == [f'p{i + 1}' for i in range(n)]])
+                if len(set(spec['stacks'])) == 1 and not any(spec['antes']):
+                    hs = list(HandHistory.from_acpc_protocol(game, spec['stacks'][0], line, error_status=True))
+                    flags.append(['the line parses back to exactly one hand', len(hs) == 1])
+                    stB = None
+                    for stB in hs[0]:
+                        pass
+                    recB = raw_record(tid, stB, dict(spec, autos=[a.value for a in stB.automations]))
+                    parsed = True
+                    flags.append(['the parsed-back hand produces the identical line', hs[0].to_pluribus_protocol(tid) == line])
+        flags.append(['protocol output was produced without error', True])
+    except Exception as e:  # noqa: BLE001
+        flags.append([f'protocol output was produced without error ({type(e).__name__}: {str(e)[:100]})', False])
+    return {'tid': tid, 'kind': 'acpc', 'A': recA, 'B': recB, 'sync': [], 'flags': flags, 'views': views, 'pluribus': plur,
+            'parsed': parsed, 'cut': cut, 'n': n, 'nolimit': nolimit}
